@@ -91,6 +91,12 @@ class World(object):
             if op in ("take", "peek"):
                 s = H[e["h"] - 1]
                 n = parse_tok(e["n"])
+                self.ncalls = getattr(self, "ncalls", 0) + 1
+                if n is not None and self.ncalls % 3 == 0:
+                    # the `constructor` argument only shapes what is RETURNED (here: reversed, so that anything put
+                    # back into the stream by mistake is out of order); the list model is about the stream
+                    r = getattr(s, op)(n, constructor=lambda items: list(items)[::-1])
+                    return ("list", list(r)[::-1])
                 r = getattr(s, op)(n) if n is not None else getattr(s, op)()
                 return ("item", r) if n is None else ("list", list(r))
             if op == "next":
